@@ -95,6 +95,8 @@ func (c *Ctx) ruleExactConsumption(rule string, specs ...string) {
 func checkC10(c *Ctx) {
 	c.ruleExactConsumption("G12.exact", "efi/signature.ReadWinCertificate", "efi/signature.ReadWinCertificateUEFIGUID", "efi/signature.ReadEFIVariableAuthencation2")
 	c.R.Floor("G12.exact", 3)
+	c.ruleNoUpperBound("G13.range", "efi/signature.ReadWinCertificate", "efi/signature.ReadWinCertificateUEFIGUID", "efi/signature.ReadEFIVariableAuthencation2")
+	c.R.Floor("G13.range", 3)
 	// G1 pairs (flattened through sub-codecs)
 	rw, _ := c.pairRule("G1.pair", "efi/signature.ReadWinCertificate", "efi/signature.WriteWinCertificate", nil)
 	ru, wu := c.pairRule("G1.pair", "efi/signature.ReadWinCertificateUEFIGUID", "efi/signature.WriteWinCertificateUEFIGUID", map[string]bool{"@uefi-body": true})
@@ -319,4 +321,75 @@ func (c *Ctx) certificateCleared(fn *ssa.Function, hdr ssa.Value, at *ssa.Store)
 		}
 	}
 	return false
+}
+
+// ruleNoUpperBound (G13): the decoders accept every declared length the format
+// allows. A branch that turns an input away because a decoded length field is
+// larger than a constant rejects well-formed descriptors (the writer still
+// emits them), so decode(encode(v)) fails for those v.
+func (c *Ctx) ruleNoUpperBound(rule string, specs ...string) {
+	for _, spec := range specs {
+		fn := c.Fn(rule, spec)
+		if fn == nil {
+			continue
+		}
+		dv := c.deepViewOf(fn, 3)
+		done := map[*ssa.Function]bool{}
+		bad := ""
+		n := 0
+		for _, fr := range dv.framesInOrder() {
+			f := fr.fn
+			if done[f] || !hasErrorResult(f) {
+				continue
+			}
+			done[f] = true
+			for _, ce := range ir.CondEdges(f) {
+				cmp, ok := ce.Cond.(*ssa.BinOp)
+				if !ok {
+					continue
+				}
+				op := cmp.Op
+				if !ce.Truth {
+					op = negate(op)
+				}
+				// normalise to "value OP const"
+				val, k := cmp.X, cmp.Y
+				if _, isK := ir.ConstInt(k); !isK {
+					if _, isK2 := ir.ConstInt(val); !isK2 {
+						continue
+					}
+					val, k = k, val
+					op = flip(op)
+				}
+				if op != token.GTR && op != token.GEQ {
+					continue
+				}
+				// the compared value derives from a decoded length/size field
+				isLen := false
+				for v := range c.sliceOf(val) {
+					if id := ir.FieldID(v); strings.HasSuffix(id, ".Length") || strings.HasSuffix(id, ".ListSize") || strings.HasSuffix(id, ".Size") && strings.Contains(id, "Signature") {
+						isLen = true
+					}
+				}
+				if !isLen {
+					continue
+				}
+				n++
+				// the edge leads to failing returns only
+				allFail, some := true, false
+				for _, cls := range retClassesFrom(f, f.Blocks[ce.Edge.To], ce.Edge.From) {
+					some = true
+					if cls != "fail" {
+						allFail = false
+					}
+				}
+				// certificate data of up to 64 KiB is in range: dwLength up to 64 KiB + 24
+				if kv, _ := ir.ConstInt(k); some && allFail && kv < 65536+24 {
+					bad = fmt.Sprintf("%s rejects inputs whose declared length is above %d at %s", name(f), kv, c.Pos(ir.BlockPos(f.Blocks[ce.Edge.To])))
+				}
+			}
+		}
+		c.R.Check(bad == "", rule, name(fn), "length-upper-bound", c.Pos(fn.Pos()),
+			fmt.Sprintf("no declared length the format allows is rejected for being large (%d comparisons of length fields with constants examined)", n), bad+": descriptors the encoder produces are refused by the decoder")
+	}
 }
